@@ -24,6 +24,10 @@ def run(ck, ctx):
     ck.rule("R19.5", "router = owners minus sender: route_selective takes targets from get_gossip_targets(key, my_replica) and skips a "
                      "target only when that target has no address (the skip continues with the next target of the same delta); "
                      "get_gossip_targets filters only `!= sender`; queue_deltas emits one targeted message per routing-table entry")
+    ck.rule("R19.6", "virtual-node positions are an injective function of (node, index): the position hash is fed the node id and the virtual "
+                     "index as separate fixed-width integers (two Hash::hash calls on integer types) - never one concatenated/formatted "
+                     "label, which makes (1, 13) and (11, 3) collide; colliding positions keep their join order through the stable sort, so "
+                     "the replica list would depend on the order in which nodes joined")
     ck.nd("minimal disruption on membership change (a numeric property of consistent hashing); per-key RF overrides")
     for cfg in ctx.configs:
         prog = ctx.prog(cfg)
@@ -60,6 +64,21 @@ def _rules(ck, prog, cfg):
                      "ring position hashing calls %s: placement would differ between processes/nodes, so replicas disagree on who owns a key" % c,
                      f.where(t["ln"]), detail=c[-60:])
     ck.floor("R19.1" + _tag(cfg), n1, 6)
+    # ---- R19.6: who computes vnode positions, and from what
+    vfs = [f for f in prog.lib_fns() if f.file == "src/replication/hash_ring.rs" and "::tests::" not in f.id and
+           f.d.get("implements") != "std::hash::Hash::hash" and
+           (f.short == "hash_virtual_node" or any(is_callee(t, r"^<u32 as std::hash::Hash>::hash") for _, t in f.calls()))]
+    if not vfs:
+        ck.anchor_lost("R19.6", "no function of hash_ring.rs hashes a virtual-node index (u32) any more")
+    for f in vfs:
+        feeds = [(b, t) for b, t in f.calls() if re.search(r" as std::hash::Hash>::hash", t.get("fnargs") or callee(t))]
+        ints = [t for _, t in feeds if re.search(r"^<(u64|u32|usize|u16|u8) as std::hash::Hash>::hash", t.get("fnargs") or callee(t))]
+        texty = [t for _, t in f.calls() if re.search(r"^<(str|std::string::String|\[u8\]) as std::hash::Hash>::hash|format|HashRing::hash_key$|to_string", t.get("fnargs") or callee(t))]
+        ck.check(len(ints) >= 2 and not texty and len(ints) == len(feeds), "R19.6", "%s:separate-integer-feeds%s" % (f.short, _tag(cfg)),
+                 "the virtual-node position is not hashed from (node id, index) as two separate integers (%d integer feeds, %d text/other feeds: %s): "
+                 "distinct (node, index) pairs can collide and tied ring entries stay in join order"
+                 % (len(ints), len(feeds) - len(ints) + len(texty), sorted({(t.get("fnargs") or callee(t))[-50:] for t in texty})[:3]),
+                 f.where(), detail="%d integer feeds" % len(ints))
     # who else computes ring positions? every push into `ring` takes its position from hash_virtual_node
     # ---- R19.2
     n2 = 0
